@@ -7,7 +7,7 @@ import ast
 from ..linform import lin, show_lin
 from ..program import AnalysisError
 from ..rules import is_call, is_mcall, mcalls, mentions, mentions_any, calls
-from ..terms import C, Evaluator, G, P, is_t, mk_proj, show, subterms
+from ..terms import C, Evaluator, G, P, is_t, mk_proj, scenarios, show, subterms
 from .common import Obs, arms_of, call0, choices_of, cond_has, ctor_fields, is_zero, retval_of, score_of, single, tuple_n
 
 MOD = "distributions/distribution.py"
@@ -97,20 +97,27 @@ def analyse(obs: Obs, prog):
     obs.add({"C02", "C24", "C01"}, "SCORE-AGG", "ExactDensity.random_weighted/score", is_elp(wv[0], smp, P("args")), derived=wv[0], expected="estimate_logpdf(key, <the sampled value>, *args)", where=w)
     r = ev.eval_fn(E.methods["estimate_logpdf"], E.module, E)
     lp = ("call", ("attr", SELF, "logpdf"), (P("v"), STAR_ARGS), ())
-    ok = False
     der = r.ret
-    if is_t(r.ret, "phi"):
-        a, b = r.ret[2], r.ret[3]
-        ok = mentions(r.ret[1], lp) and is_call(a, "sum") and a[2] == (lp,) and b == lp
-    elif is_call(r.ret, "sum") and r.ret[2] == (lp,):
-        ok = True
+    shp = ("attr", lp, "shape")
+
+    def scalar_(conds):
+        """does this path establish that logpdf's result is a scalar (True), is not (False), or neither (None)?"""
+        for c, pol in conds:
+            if c == shp:  # `if w.shape:` - a non-empty shape
+                return not pol
+            if is_t(c, "cmp") and c[1] == "==" and ((c[2] == ("call", G("len"), (shp,), ()) and c[3] == C(0)) or (c[2] == shp and c[3] == ("tuple", ())) or (c[2] == ("attr", lp, "ndim") and c[3] == C(0))):
+                return pol
+        return None
+    ok = True
+    for conds, leaf in scenarios(r.ret):
+        sc_ = scalar_(conds)
+        ok = ok and ((is_call(leaf, "sum") and leaf[2] == (lp,)) or (leaf == lp and sc_ is True))
     obs.add({"C02", "C24"}, "SCORE-AGG", "ExactDensity.estimate_logpdf", ok, derived=der, expected="logpdf(v, *args) summed over its leaves (both arms of the shape test)", where=W(E, "estimate_logpdf"))
     # assess
     r = ev.eval_fn(E.methods["assess"], E.module, E)
-    arms = arms_of(r)
     v0 = call0(P("sample"), "get_value")
     n_ok = 0
-    for conds, t in arms:
+    for conds, t in scenarios(r.ret):
         pair = tuple_n(t, 2, "ExactDensity.assess")
         masked = cond_has(conds, lambda x: is_t(x, "isinst") and x[2] == "Mask" or (is_t(x, "bool") and any(is_t(y, "isinst") and y[2] == "Mask" for y in x[2])), True)
         val = ("attr", v0, "value") if masked else v0
